@@ -91,7 +91,7 @@ theorem consume_core (l : Log) (hinv : Inv l) (off : Int) (mc : Nat) (hmc : 1 â‰
     by_cases hlast : i + 1 < l.segs.length
     Â· -- a reader segment: hand off to the next segment from the oldest offset
       have hne : s'.recs â‰  [] := by
-        rw [hrecs]; exact hsh.nonempty i (by omega)
+        rw [hrecs]; exact hsh.nonempty_idx i (by omega)
       have hchead : c.head = false := by
         rw [hc]
         have : (i + 1 == l.segs.length) = false := by simp; omega
@@ -133,7 +133,7 @@ theorem consume_core (l : Log) (hinv : Inv l) (off : Int) (mc : Nat) (hmc : 1 â‰
       Â· -- the next segment is the empty head: caught up
         have hlast2 : Â¬ i + 1 + 1 < (shape l.segs).length := by
           intro h
-          exact hsh.nonempty (i + 1) h (by rw [â† hrecs2]; exact hne2)
+          exact hsh.nonempty_idx (i + 1) h (by rw [â† hrecs2]; exact hne2)
         have hil : (shape l.segs).length - 1 = i + 1 := by omega
         have hctx := rctx_last l1 hinv1 s2 its2 hit2
           (by simp only [hsh1, hil]; rw [hs2])
